@@ -23,7 +23,7 @@ R3 = "R3"
 
 min_size = Fn(F, "min_size", impl="BigInt", ret="res", props=["C04", "C05", "C03"],
               ensures=[C("min_size_spec", "res == min_size_spec(self.val())", ["C04", "C05"])],
-              rewrites=[Rewrite("&self.bigint + 1", "core::ops::Add::add(&self.bigint, 1)", rule=R3,
+              rewrites=[Rewrite(r"&self\.bigint \+ (\d+)", r"core::ops::Add::add(&self.bigint, \1)", regex=True, count=None, rule=R3,
                                 why="operator on a reference operand -> its UFCS desugaring (verifier crash otherwise)")])
 
 sign = Fn(F, "sign", impl="BigInt", ret="res", props=["C04", "C05"],
@@ -62,6 +62,7 @@ checked_into = Fn(F, "checked_into", impl="BigInt", ret="res", props=["C19", "C0
 checked_into_nonzero_usize = Fn(F, "checked_into_nonzero_usize", impl="BigInt", ret="res", props=["C19", "C03"],
                   ensures=LOUD + [C("nonzero_usize", "match res { Ok(v) => v as int == self.val() && v > 0, Err(_) => !(0 < self.val() <= usize::MAX) }", ["C19"])])
 
+MAPINTO_C = ("|res: num_bigint::BigInt| -> (r: BigInt) ensures r.bigint == res, r.size is None", "")
 MAPINTO = Rewrite(".map(|res| res.into())",
                   ".map(|res: num_bigint::BigInt| -> (r: BigInt) ensures r.bigint == res, r.size is None { res.into() })",
                   rule="R4", why="closure header with types and spec; the expression body is only wrapped in braces")
@@ -73,7 +74,8 @@ def _arith(name, op_spec, cap_desc, cap_cond, extra=(), hint=""):
                   C("err_only_beyond_cap", "res is Err ==> %s" % cap_cond, ["C05", "C19"]),
                   C("result_within_cap", "res is Ok ==> bitlen(abs(res->Ok_0.val())) <= BIGINT_MAX_BITS", ["C19"]),
               ] + list(extra),
-              rewrites=[MAPINTO],
+              closures={1: MAPINTO_C},
+              rewrites=GENERIC_R3,
               inserts=[Insert("        self.bigint\n            .checked_", "        proof { %s }\n" % hint, where="before",
                               why="lemma call bounding the magnitude of the result (erased)")])
 
@@ -90,7 +92,7 @@ checked_div = Fn(F, "checked_div", impl="BigInt", ret="res", props=["C05", "C03"
                      C("div_by_zero_is_error", "rhs.val() == 0 <==> res is Err", ["C05"]),
                      C("truncates_toward_zero", "res is Ok ==> res->Ok_0.val() == num_bigint::tdiv(self.val(), rhs.val()) && res->Ok_0.size is None", ["C05"]),
                  ],
-                 rewrites=[MAPINTO] + GENERIC_R3)
+                 closures={1: MAPINTO_C}, rewrites=GENERIC_R3)
 
 checked_mod = Fn(F, "checked_mod", impl="BigInt", ret="res", props=["C05", "C03"],
                  ensures=LOUD + [
@@ -106,13 +108,9 @@ checked_shl = Fn(F, "checked_shl", impl="BigInt", ret="res", props=["C05", "C19"
                      C("err_only_beyond_cap", "res is Err ==> !(0 <= rhs.val() <= u32::MAX) || bitlen(abs(self.val())) + rhs.val() >= BIGINT_MAX_BITS", ["C05", "C19"]),
                      C("result_within_cap", "res is Ok ==> bitlen(abs(res->Ok_0.val())) <= BIGINT_MAX_BITS", ["C19"]),
                  ],
-                 rewrites=[
-                     Rewrite(r"\.map\(\|rhs: usize\| \(&self\.bigint << ([^;]+?)\)\.into\(\)\)",
-                             r".map(|rhs: usize| -> (r: BigInt) ensures r.bigint == num_bigint::mk(self.val() * pow2(rhs as nat)), r.size is None { core::ops::Shl::shl(&self.bigint, \1).into() })", regex=True,
-                             rule="R3+R4", why="closure header; operator on a reference operand -> UFCS"),
-                     Rewrite(".map_err(|_| ())", ".map_err(|_e: num_bigint::TryFromBigIntError| -> (r: ()) { () })", rule="R4",
-                             why="Verus rejects `_` closure parameters; the parameter is named and typed"),
-                 ],
+                 closures={1: ("|rhs: usize| -> (r: BigInt) ensures r.bigint == num_bigint::mk(self.val() * pow2(rhs as nat)), r.size is None", ""),
+                           2: ("|_e: num_bigint::TryFromBigIntError| -> (r: ())", "")},
+                 rewrites=GENERIC_R3,
                  inserts=[Insert("        (&rhs.bigint)\n            .try_into()\n            .map(", "        proof { lemma_bitlen_shl(self.val(), rhs.val() as nat); }\n", where="before", why="lemma call (erased)")])
 
 checked_shr = Fn(F, "checked_shr", impl="BigInt", ret="res", props=["C05", "C03"],
@@ -120,13 +118,9 @@ checked_shr = Fn(F, "checked_shr", impl="BigInt", ret="res", props=["C05", "C03"
                      C("floor", "res is Ok ==> rhs.val() >= 0 && res->Ok_0.val() == self.val() / (pow2(rhs.val() as nat) as int) && res->Ok_0.size is None", ["C05"]),
                      C("err_only_beyond_usize", "res is Err <==> !(0 <= rhs.val() <= usize::MAX)", ["C05", "C19"]),
                  ],
-                 rewrites=[
-                     Rewrite(r"\.map\(\|rhs: usize\| \(&self\.bigint >> ([^;]+?)\)\.into\(\)\)",
-                             r".map(|rhs: usize| -> (r: num_bigint::BigInt) ensures r == num_bigint::mk(self.val() / (pow2(rhs as nat) as int)) { core::ops::Shr::shr(&self.bigint, \1).into() })", regex=True,
-                             rule="R3+R4", why="closure header; operator on a reference operand -> UFCS"),
-                     Rewrite(".map_err(|_| ())", ".map_err(|_e: num_bigint::TryFromBigIntError| -> (r: ()) { () })", rule="R4",
-                             why="Verus rejects `_` closure parameters; the parameter is named and typed"),
-                 ])
+                 closures={1: ("|rhs: usize| -> (r: num_bigint::BigInt) ensures r == num_bigint::mk(self.val() / (pow2(rhs as nat) as int))", ""),
+                           2: ("|_e: num_bigint::TryFromBigIntError| -> (r: ())", "")},
+                 rewrites=GENERIC_R3)
 
 SLICE_BITS = "forall|j: nat| #[trigger] bit_of(res.val(), j) == (j < left - right && bit_of(self.val(), (right + j) as nat))"
 slice_ = Fn(F, "slice", impl="BigInt", ret="res", props=["C05", "C04", "C03"],
